@@ -147,6 +147,7 @@ class Runner:
         self.foreign = False
         self.idc = 500000
         self.cells: List[Any] = []
+        self.created: set = set()
         self.stats = {"reopen_by_name": 0, "reopen_by_list": 0, "sha_checks": 0, "discards": 0,
                       "stale_sidecars_after_w": 0}
 
@@ -181,6 +182,16 @@ class Runner:
             handle = {"files": names, "writable": bool(r._has_writable), "patching": bool(r._allow_patching),
                       "closed": bool(r._closed), "view": view}
         self.obs.append({"outcome": outcome, "files": files, "handle": handle})
+        # reachable directories are name-index coherent (C03_names_coherent), on the code alone
+        byrec: Dict[str, List[Any]] = {}
+        for fn in sorted(ubs):
+            byrec.setdefault(rec_name_of(fn), []).append((ubs[fn]["idx"], fn))
+        for n, lst in byrec.items():
+            lst.sort()
+            want = [(i, f"{n}.ih5" if i == 0 else f"{n}.p{i}.ih5") for i in range(len(lst))]
+            if lst != want:
+                self.problem(f"files of record {n!r} are not name-index coherent: {lst}")
+        self.stats["coherence_checks"] = self.stats.get("coherence_checks", 0) + 1
         if contract and outcome not in CONTRACT and not getattr(self, "was_closed", False):
             self.foreign = True
         self.was_closed = False
@@ -277,6 +288,7 @@ class Runner:
                     stale = [fn for fn in after if fn.endswith(".ih5mf.json") and rec_name_of(fn) == n
                              and fn[:-len("mf.json")] not in after]
                     self.stats["stale_sidecars_after_w"] += len(stale)
+                self.created.add(n)
                 self.last_dump.pop(n, None)
                 self.commit_dump.pop(n, None)
                 self.hist[n] = ih5lib.gen_history(self.rng, 40, p_bnd=0.0, allow_self_copy=False) if self.rich else []
@@ -388,6 +400,20 @@ class Runner:
         self.rec = None
         gc.collect()
         self.observe("ok")
+        # list_records after an arbitrary history = the records created so far (C03_list_records_reachable)
+        try:
+            from metador_core.ih5.record import IH5Record
+            got = sorted(p.name for p in IH5Record.list_records(self.d))
+            if got != sorted(self.created):
+                self.problem(f"list_records = {got}, records created so far: {sorted(self.created)}")
+            for n in sorted(self.created):
+                fs = sorted(p.name for p in IH5Record.find_files(self.d / n))
+                mine = sorted(fn for fn in ublocks(self.d) if rec_name_of(fn) == n)
+                if fs != mine:
+                    self.problem(f"find_files({n!r}) = {fs}, containers of that record: {mine}")
+            self.stats["list_records_checks"] = self.stats.get("list_records_checks", 0) + 1
+        except Exception as e:  # noqa: BLE001
+            self.problem(f"list_records/find_files raised {type(e).__name__}: {e}")
 
     def do_classify(self, cmd):
         self.concrete.append(cmd)
